@@ -7,8 +7,10 @@ from . import httpref
 
 
 class Conn:
-    def __init__(self, port, host="127.0.0.1", src=None, timeout=10.0):
+    def __init__(self, port, host="127.0.0.1", src=None, timeout=10.0, rcvbuf=None):
         self.s = socket.socket(socket.AF_INET, socket.SOCK_STREAM)
+        if rcvbuf:      # a small receive window (set before connect): the peer cannot push much ahead of what is read
+            self.s.setsockopt(socket.SOL_SOCKET, socket.SO_RCVBUF, rcvbuf)
         self.s.setsockopt(socket.IPPROTO_TCP, socket.TCP_NODELAY, 1)
         if src:
             self.s.bind((src, 0))
